@@ -29,30 +29,28 @@ theorem model_uses_enum :
 
 /-- `init`: SetLoadBalance(RoundRobin) then SetNumLoops(n), error ignored -/
 theorem newManager_steps : mgr_newManager =
-    ["call m.SetLoadBalance(RoundRobin)", "call m.SetNumLoops(numLoops)", "return"] := by decide
+    ["call m.SetLoadBalance(RoundRobin)", "call m.SetNumLoops(numLoops)", "return"] := rfl
 
 /-- `setNumLoops`: early error return; store numLoops FIRST, then status = uninitialized -/
 theorem setNumLoops_steps : mgr_manager_SetNumLoops =
     ["return",
      "atomic.StoreInt32(&m.numLoops,int32(numLoops))",
      "atomic.StoreInt32(&m.status,managerUninitialized)",
-     "return"] := by decide
+     "return"] := rfl
 
 /-- `setLoadBalance`: compare `LoadBalance()`, else replace the balancer by `newLoadbalance(lb, m.polls)`;
 no store to `status` -/
 theorem setLoadBalance_steps : mgr_manager_SetLoadBalance =
-    ["call m.balance.LoadBalance()", "return", "store m.balance", "call newLoadbalance(lb,m.polls)", "return"] := by
-  decide
+    ["call m.balance.LoadBalance()", "return", "store m.balance", "call newLoadbalance(lb,m.polls)", "return"] := rfl
 
 /-- `newLoadbalance`: Random → randomLB, RoundRobin and everything else → roundRobinLB (`LB.ofCode`) -/
 theorem newLoadbalance_steps : mgr_newLoadbalance =
     ["return", "call newRoundRobinLB(polls)", "return", "call newRandomLB(polls)", "return",
-     "call newRoundRobinLB(polls)"] := by decide
+     "call newRoundRobinLB(polls)"] := rfl
 
 /-- `RPc.eclose` (one Close per poller of m.polls) then `RPc.eclear` (three plain stores, one model step) -/
 theorem close_steps : mgr_manager_Close =
-    ["range m.polls", "call poll.Close()", "store m.numLoops", "store m.balance", "store m.polls", "return"] := by
-  decide
+    ["range m.polls", "call poll.Close()", "store m.numLoops", "store m.balance", "store m.polls", "return"] := rfl
 
 /-- `Run`: deferred Close on error (eclose/eclear) · `RPc.load` · return if equal · shrink loop `RPc.close` ·
 grow loop `RPc.open` (error return) / `RPc.go` · `RPc.store` · `RPc.rebal1/2` -/
@@ -62,11 +60,11 @@ theorem run_steps : mgr_manager_Run =
      "for", "call m.polls[idx].Close()", "index m.polls",
      "for", "call openPoll()", "return", "go poll.Wait",
      "store m.polls",
-     "call m.balance.Rebalance(m.polls)", "return"] := by decide
+     "call m.balance.Rebalance(m.polls)", "return"] := rfl
 
 /-- `resetSeq`: close every poller, `m.polls = nil`, `Run()` -/
 theorem reset_steps : mgr_manager_Reset =
-    ["range m.polls", "call poll.Close()", "store m.polls", "return", "call m.Run()"] := by decide
+    ["range m.polls", "call poll.Close()", "store m.polls", "return", "call m.Run()"] := rfl
 
 /-- `Pick`: `Act.load` (fast path → balancer) · `Act.cas` (fail: Gosched, goto START) · Run (`Act.run`) ·
 `Act.cas2` (result ignored) · balancer (`Act.balEnter …`) -/
@@ -76,20 +74,20 @@ theorem pick_steps : mgr_manager_Pick =
      "call runtime.Gosched()", "goto START",
      "call m.Run()",
      "atomic.CompareAndSwapInt32(&m.status,managerInitializing,managerInitialized)",
-     "return", "call m.balance.Pick()"] := by decide
+     "return", "call m.balance.Pick()"] := rfl
 
 /-- roundRobinLB.Pick: `Act.balEnter` (AddUintptr by 1) · `Act.balSize` (`int(..) % b.pollSize`) ·
 `Act.balIdx` (`b.polls[idx]`) -/
 theorem rrPick_steps : mgr_roundRobinLB_Pick =
-    ["rem b.pollSize", "atomic.AddUintptr(&b.accepted,1)", "return", "index b.polls"] := by decide
+    ["rem b.pollSize", "atomic.AddUintptr(&b.accepted,1)", "return", "index b.polls"] := rfl
 
 /-- randomLB.Pick: `Act.balEnter r` (`fastrand.Intn(b.pollSize)`) · `Act.balIdx` -/
 theorem randPick_steps : mgr_randomLB_Pick =
-    ["call fastrand.Intn(b.pollSize)", "return", "index b.polls"] := by decide
+    ["call fastrand.Intn(b.pollSize)", "return", "index b.polls"] := rfl
 
 /-- Rebalance: `RPc.rebal1` (b.polls) then `RPc.rebal2` (b.pollSize), for both balancers -/
 theorem rebalance_steps :
     mgr_roundRobinLB_Rebalance = ["store b.polls", "store b.pollSize"] ∧
-    mgr_randomLB_Rebalance = ["store b.polls", "store b.pollSize"] := by decide
+    mgr_randomLB_Rebalance = ["store b.polls", "store b.pollSize"] := ⟨rfl, rfl⟩
 
 end Netpoll.Tie.Manager
